@@ -450,6 +450,7 @@ extern void pxgstrf_SetIWork (int_t, int_t, int_t *, int_t **, int_t **, int_t *
 		      int_t **, int_t **, int_t **, int_t **);
 extern void pdgstrf_SetRWork (int_t, int_t, double *, double **, double **);
 extern void pdgstrf_WorkFree (int_t *, double *, GlobalLU_t *);
+extern void pdgstrf_WorkFreeAll (void);
 extern int_t  pdgstrf_MemXpand (int_t, int_t, MemType, int_t *, GlobalLU_t *);
 
 extern int_t  *intMalloc (int_t);
